@@ -74,6 +74,19 @@ func (vc *VC) assumeRefFacts(st *State, v Val) {
 		return
 	}
 	switch u := v.Ty.Underlying().(type) {
+	case *types.Slice:
+		// every reference stored in a slice of pointers / interfaces is nil, boxed, or an allocated object
+		switch u.Elem().Underlying().(type) {
+		case *types.Pointer, *types.Interface:
+			if isAtom(v.S) || strings.HasPrefix(v.S, "(select ") {
+				f := fmt.Sprintf("(forall ((k_al Int)) (! (or (<= (select (arr_%s %s) k_al) 0) (select %s (select (arr_%s %s) k_al))) :pattern ((select (arr_%s %s) k_al))))", v.Sort, v.S, st.alloc, v.Sort, v.S, v.Sort, v.S)
+				key := "al|" + f
+				if !vc.rangeAsserted[key] {
+					vc.rangeAsserted[key] = true
+					vc.assume(st, f)
+				}
+			}
+		}
 	case *types.Pointer:
 		vc.needDyntype()
 		vc.assume(st, fmt.Sprintf("(or (= %s 0) (and (> %s 0) (select %s %s) (= (dyntype %s) %d)))", v.S, v.S, st.alloc, v.S, v.S, vc.eng.sorts.tid(v.Ty)))
@@ -616,7 +629,7 @@ func (vc *VC) evalSliceExpr(st *State, x *ast.SliceExpr) Val {
 			vc.assume(st, fmt.Sprintf("(forall ((k Int)) (! (= (select %s k) (select %s (+ k %s))) :pattern ((select %s k))))", sh, arr, lo, sh))
 			narr = sh
 			loS, hiS := lo, hi
-			vc.sumFacts(st, es, func(ps func(a, n string) string, f string) []string {
+			vc.sumFacts(st, es, func(ps func(a, n string) string, fv func(v string) string) []string {
 				return []string{fmt.Sprintf("(= %s (- %s %s))", ps(sh, fmt.Sprintf("(- %s %s)", hiS, loS)), ps(arr, hiS), ps(arr, loS))}
 			})
 		}
